@@ -1,7 +1,13 @@
 """C06 - in-place addition on 4/8-byte variables never loses updates.
 
-For every (memory kind, format, += / -=, amount form) the statement is compiled
-by the real DSL once per program instance (instances differ in their amounts).
+A statement is (+= / -=, amount form, amount index); the amount forms contain
+constants, registers, expressions, a local variable - and ZERO amounts (the
+literals 0 and 0.0, a register and a local variable holding 0).  A program is
+one or two statements on the variable, compiled by the real DSL.  Uniform
+configurations run the same statement in every instance (instances differ in
+their amounts); mixed configurations give the instances DIFFERENT statements
+on the same variable (a zero amount next to a non-zero one, += next to -=,
+different amount forms, two statements in one program).
 Two or three interpreter instances (private registers and stack) run the
 assembled bytes on *shared* packet / map memory.  An explicit-state search
 with exact duplicate detection enumerates every interleaving at instruction
@@ -23,8 +29,14 @@ from ebpfcat.xdp import XDP, PacketVar
 
 PROP = "C06"
 LEVEL = "model_checking"
-RULE = ("configurations = memory kind x format x (+=, -=) x amount form x "
-        "number of instances x initial value; for each, explicit-state search "
+RULE = ("uniform configurations = memory kind x format x (+=, -=) x amount "
+        "form (constants, registers, expressions, local variable, and zero "
+        "as int 0 / 0.0 / register / local variable) x number of instances x "
+        "initial value; mixed configurations = memory kind x format x "
+        "instances running DIFFERENT statements on the variable: every zero "
+        "statement x every statement, pairs of different non-zero "
+        "statements, triples, and programs of two statements (zero + "
+        "non-zero); for each, explicit-state search "
         "over (pc and registers and stack of every instance, shared bytes) "
         "with exact dedup enumerates all instruction-level interleavings of "
         "the compiled statement (mode 'stmt': private prologue executed "
@@ -42,8 +54,14 @@ KINDS = ["pktvar", "pktarr", "rawsum", "rawptr", "array", "subarray",
          "percpu_same", "percpu_own", "local"]
 SHARED = {"pktvar", "pktarr", "rawsum", "rawptr", "array", "subarray",
           "percpu_same"}
-FORMS = ["const", "neg", "big", "r", "sr", "w", "expr", "wexpr",
-         "xconst", "xreg"]
+FORMS = ["const", "neg", "big", "r", "sr", "w", "expr", "wexpr", "lvar",
+         "zero", "rzero", "wzero", "lzero",
+         "xconst", "xreg", "xzero", "xrzero"]
+XFORMS = ("xconst", "xreg", "xzero", "xrzero")
+ZERO_FORMS = ("zero", "rzero", "wzero", "lzero", "xzero", "xrzero")
+# registers (a, b) and local variable of the k-th statement of a program
+# (r6/r7 are the map bases, r8/r6 the raw pointer/offset, r9 the packet)
+BANK = ((2, 3), (4, 5))
 GUARD = 40
 VAROFF = 8
 PKTLEN = 48
@@ -57,6 +75,7 @@ C_BIG = {4: (0x89abcdef, 0x7fffffff, 0xfedcba98),
 C_X = (0.5, 1.25, -2.5)
 R2 = (7, 0x100000005, M64 - 2)
 R3 = (1, 0x100, 0x7fffffff)
+LV = (9, 0x1234, 0x7ffffffe)
 
 
 def sx(v, bits):
@@ -114,37 +133,55 @@ class FakeMaps:
 
 
 # ------------------------------------------------------------ amounts
-def amount(e, form, fmt, i):
-    """-> (DSL operand, the integer the statement adds per unit, registers to
-    plant {no: value})"""
+def amount(e, form, fmt, i, k=0):
+    """k-th statement of a program, amount index i
+    -> (DSL operand, the integer the statement adds per unit, registers to
+    plant {no: value}, value of the local variable a<k> or None)"""
     size = SIZE[fmt]
     scale = FIXED if fmt == "x" else 1
+    a, b = BANK[k]
+    ra, sra, wa, xa = e.r[a], e.sr[a], e.w[a], e.x[a]
+    rb, wb = e.r[b], e.w[b]
     if form == "const":
-        return C_SMALL[i], C_SMALL[i] * scale, {}
+        return C_SMALL[i], C_SMALL[i] * scale, {}, None
     if form == "neg":
-        return C_NEG[i], C_NEG[i] * scale, {}
+        return C_NEG[i], C_NEG[i] * scale, {}, None
     if form == "big":
         if fmt == "x":
             c = (41234567, 1 << 40, -(1 << 33) - 9)[i]
         else:
             c = C_BIG[size][i]
-        return c, c * scale, {}
+        return c, c * scale, {}, None
     if form == "r":
-        return e.r2, R2[i] * scale, {2: R2[i]}
+        return ra, R2[i] * scale, {a: R2[i]}, None
     if form == "sr":
-        return e.sr2, sx(R2[i], 64) * scale, {2: R2[i]}
+        return sra, sx(R2[i], 64) * scale, {a: R2[i]}, None
     if form == "w":
-        return e.w2, (R2[i] & M32) * scale, {2: R2[i] & M32}
+        return wa, (R2[i] & M32) * scale, {a: R2[i] & M32}, None
     if form == "expr":
-        return e.r2 * 3 + e.r3, (R2[i] * 3 + R3[i]) * scale, \
-            {2: R2[i], 3: R3[i]}
+        return ra * 3 + rb, (R2[i] * 3 + R3[i]) * scale, \
+            {a: R2[i], b: R3[i]}, None
     if form == "wexpr":
-        return e.w2 + e.w3, ((R2[i] & M32) + (R3[i] & M32)) * scale, \
-            {2: R2[i] & M32, 3: R3[i] & M32}
+        return wa + wb, ((R2[i] & M32) + (R3[i] & M32)) * scale, \
+            {a: R2[i] & M32, b: R3[i] & M32}, None
+    if form == "lvar":
+        return getattr(e, f"a{k}"), LV[i] * scale, {}, LV[i]
+    if form == "zero":
+        return 0, 0, {}, None
+    if form == "rzero":
+        return ra, 0, {a: 0}, None
+    if form == "wzero":
+        return wa, 0, {a: 0}, None
+    if form == "lzero":
+        return getattr(e, f"a{k}"), 0, {}, 0
     if form == "xconst":
-        return C_X[i], int(C_X[i] * FIXED), {}
+        return C_X[i], int(C_X[i] * FIXED), {}, None
     if form == "xreg":
-        return e.x2, sx(R2[i], 64), {2: R2[i]}
+        return xa, sx(R2[i], 64), {a: R2[i]}, None
+    if form == "xzero":
+        return 0.0, 0, {}, None
+    if form == "xrzero":
+        return xa, 0, {a: 0}, None
     raise core.Internal(form)
 
 
@@ -153,7 +190,7 @@ def forms_for(fmt):
         return FORMS
     # a fixed-point amount added to an integer variable is divided first:
     # that is C02's subject
-    return [f for f in FORMS if f not in ("xconst", "xreg")]
+    return [f for f in FORMS if f not in XFORMS]
 
 
 # ------------------------------------------------------------ programs
@@ -161,8 +198,11 @@ class Inst:
     """one program instance of a configuration"""
 
     def __init__(self, cfg, i, fake):
-        kind, fmt, opsym, form = cfg
+        kind, fmt, progs = cfg
         self.cfg, self.i = cfg, i
+        self.stmts = progs[i]
+        if not 0 < len(self.stmts) <= len(BANK):
+            raise core.Internal("statements per program")
         self.delta = None
         inst = self
         attrs = {}
@@ -191,6 +231,9 @@ class Inst:
                 else:
                     attrs["v"] = m.globalVar(fmt)
                 attrs["n2"] = m.globalVar("I")
+        for k, (_, form, _) in enumerate(self.stmts):
+            if form in ("lvar", "lzero"):
+                attrs[f"a{k}"] = LocalVar("I" if SIZE[fmt] == 4 else "Q")
 
         def program(e):
             inst.emit(e)
@@ -225,20 +268,37 @@ class Inst:
                                           (value >> 32) & M32))
 
     def emit(self, e):
-        kind, fmt, opsym, form = self.cfg
-        operand, delta, regs = amount(e, form, fmt, self.i)
-        self.delta = delta if opsym == "+=" else -delta
-        for no, val in sorted(regs.items()):
-            self.ld64(no, val)
-            e.owners.add(no)
+        kind, fmt, _ = self.cfg
+        todo = []
+        self.delta = 0
+        for k, (opsym, form, ai) in enumerate(self.stmts):
+            operand, delta, regs, lval = amount(e, form, fmt, ai, k)
+            self.delta += delta if opsym == "+=" else -delta
+            if lval is not None:           # a<k> = lval, by raw instructions
+                off = type(e).__dict__[f"a{k}"].relative_addr
+                self.ld64(BANK[k][0], lval)
+                self.raw(0x63 if SIZE[fmt] == 4 else 0x7b, 10, BANK[k][0],
+                         off, 0)
+            for no, val in sorted(regs.items()):
+                self.ld64(no, val)
+                e.owners.add(no)
+            todo.append((opsym == "+=", operand))
         if kind == "rawsum" or kind == "rawptr":
             self.raw(0xbf, 8, 9, 0, 0)        # r8 = packet pointer
             e.owners.add(8)
         if kind == "rawptr":
-            self.raw(0xb7, 5, 0, 0, VAROFF)   # r5 = offset
-            e.owners.add(5)
+            self.raw(0xb7, 6, 0, 0, VAROFF)   # r6 = offset
+            e.owners.add(6)
         self.start = len(e.opcodes)
-        add = opsym == "+="
+        for add, operand in todo:
+            self.statement(e, add, operand)
+        self.end = len(e.opcodes)
+        if not isinstance(e, XDP):
+            self.raw(0xb7, 0, 0, 0, 2)
+            self.raw(0x95, 0, 0, 0, 0)
+
+    def statement(self, e, add, operand):
+        kind, fmt, _ = self.cfg
         if kind == "pktvar" or kind == "local" or kind == "array" \
                 or kind.startswith("percpu"):
             if add:
@@ -265,13 +325,9 @@ class Inst:
                     mm[e.r8 + VAROFF] -= operand
             else:
                 if add:
-                    mm[e.r8 + e.r5] += operand
+                    mm[e.r8 + e.r6] += operand
                 else:
-                    mm[e.r8 + e.r5] -= operand
-        self.end = len(e.opcodes)
-        if not isinstance(e, XDP):
-            self.raw(0xb7, 0, 0, 0, 2)
-            self.raw(0x95, 0, 0, 0, 0)
+                    mm[e.r8 + e.r6] -= operand
 
 
 def formats_for(kind):
@@ -302,7 +358,7 @@ class World:
         self.insts = insts
         self.fake = fake
         self.mode = mode
-        kind, fmt, opsym, form = insts[0].cfg
+        kind, fmt, _ = insts[0].cfg
         self.kind, self.fmt = kind, fmt
         self.size = SIZE[fmt]
         self.packet = bytearray((i * 7 + 0x40) & 0xff for i in range(PKTLEN))
@@ -461,19 +517,27 @@ def explore(world, res, cap=STATE_CAP):
 
 
 # ------------------------------------------------------------ driver
-def build(cfg, n):
+def build(cfg):
     fake = FakeMaps()
     with fake.bound():
-        insts = [Inst(cfg, i, fake) for i in range(n)]
+        insts = [Inst(cfg, i, fake) for i in range(len(cfg[2]))]
     return insts, fake
 
 
+def case_json(cfg, mode, family):
+    kind, fmt, progs = cfg
+    return dict(kind=kind, fmt=fmt, n=len(progs), mode=mode, family=family,
+                progs=[[list(st) for st in p] for p in progs])
+
+
 def run_config(item, res):
-    cfg, n, mode, init_list = item
-    kind, fmt, opsym, form = cfg
-    cj = dict(kind=kind, fmt=fmt, op=opsym, form=form, n=n, mode=mode)
+    cfg, mode, init_list, family = item
+    kind, fmt, progs = cfg
+    n = len(progs)
+    cj = case_json(cfg, mode, family)
+    shape = [[st[:2] for st in p] for p in progs]
     try:
-        insts, fake = build(cfg, n)
+        insts, fake = build(cfg)
     except core.Internal:
         raise
     except Exception as e:
@@ -481,15 +545,20 @@ def run_config(item, res):
         res.outcomes.add("rejected:" + type(e).__name__)
         return
     res.count("programs", n)
-    xadds = sum(1 for ins in insts[0].insns[insts[0].start:insts[0].end]
-                if ins is not None and ins[0] in (0xc3, 0xdb))
-    res.outcomes.add(("xadd instructions in statement", xadds))
-    res.outcomes.add(("statement length", insts[0].end - insts[0].start))
+    res.count("configurations_" + family)
+    for inst in insts:
+        xadds = sum(1 for ins in inst.insns[inst.start:inst.end]
+                    if ins is not None and ins[0] in (0xc3, 0xdb))
+        res.outcomes.add(("xadd instructions - statements in program",
+                          xadds - len(inst.stmts)))
+        res.outcomes.add(("statement length",
+                          (inst.end - inst.start) // len(inst.stmts)))
     for init in init_list:
         world = World(insts, fake, mode, init)
         world.prologue()
         states, transitions, terminals, found = explore(world, res)
         res.count("evaluations")
+        res.count("evaluations_" + family)
         res.count("states", states)
         res.count("transitions", transitions)
         res.count("terminal_states", terminals)
@@ -502,9 +571,83 @@ def run_config(item, res):
             if what in seen:
                 continue
             seen.add(what)
-            res.violation(dict(cj, init=init, schedule=sched), exp, obs,
-                          sig=core.digest([what, kind, fmt, opsym, form]),
+            res.violation(dict(cj, init=init, schedule=sched,
+                               amounts=[x.delta for x in insts]), exp, obs,
+                          sig=core.digest([what, kind, fmt, shape]),
                           note=f"{what} after schedule {sched}")
+
+
+def uniform(stmt, n):
+    """every instance runs the same statement with its own amount"""
+    return tuple(((stmt[0], stmt[1], i),) for i in range(n))
+
+
+def statements(fmt):
+    """-> (all statements (op, form), the zero ones, the non-zero ones)"""
+    allst = [(op, form) for op in ("+=", "-=") for form in forms_for(fmt)]
+    zero = [st for st in allst if st[1] in ZERO_FORMS]
+    return allst, zero, [st for st in allst if st[1] not in ZERO_FORMS]
+
+
+def mixed_programs(ctx, fmt):
+    """instances that run DIFFERENT statements on the variable
+    -> list of (family, progs)"""
+    allst, zero, nz = statements(fmt)
+    q, sd = ctx.quick, ctx.seed
+    out = []
+    # a zero statement next to every statement (also another zero one)
+    for zi, Z in enumerate(zero):
+        for si, S in enumerate(allst):
+            if Z == S:
+                continue             # that is a uniform configuration
+            pr = ((Z + (0,),), (S + (1,),))
+            out.append(("zero+any", pr if (zi + si) % 2 else pr[::-1]))
+    # two different non-zero statements
+    for i, S1 in enumerate(nz):
+        if q:
+            others = uniq(nz[(i + 1 + sd + 5 * r) % len(nz)] for r in range(3))
+        else:
+            others = nz[i + 1:]
+        for S2 in others:
+            if S2 != S1:
+                out.append(("two different", ((S1 + (0,),), (S2 + (1,),))))
+    # three instances: zero, non-zero, non-zero / zero, zero, non-zero
+    for zi, Z in enumerate(zero):
+        for si, S in enumerate(nz):
+            if q and (zi + si + sd) % 4:
+                continue
+            S2 = nz[(si + zi + 3) % len(nz)]
+            Z2 = zero[(zi + si + 1) % len(zero)]
+            k = (zi + si) % 3
+            pr = [(S + (1,),), (S2 + (2,),)]
+            pr.insert(k, (Z + (0,),))
+            out.append(("three, one zero", tuple(pr)))
+            if not q or (zi + si + sd) % 8 == 0:
+                pr = [(Z2 + (1,),), (S + (2,),)]
+                pr.insert(k, (Z + (0,),))
+                out.append(("three, two zero", tuple(pr)))
+    # two statements in one program: a zero and a non-zero amount
+    for zi, Z in enumerate(zero):
+        for si, S in enumerate(nz):
+            if q and (zi + si + sd) % 3:
+                continue
+            S2 = nz[(si + 2 * zi + 1) % len(nz)]
+            two = (Z + (0,), S + (1,)) if (zi + si) % 2 else \
+                (S + (1,), Z + (0,))
+            out.append(("two statements", (two, (S2 + (2,),))))
+            if not q or (zi + si + sd) % 2 == 0:
+                out.append(("two statements", (two, two[::-1])))
+                out.append(("two statements",
+                            (two, (Z + (1,),), (S2 + (2,),))))
+    return out
+
+
+def uniq(xs):
+    out = []
+    for x in xs:
+        if x not in out:
+            out.append(x)
+    return out
 
 
 def configs(ctx):
@@ -513,31 +656,69 @@ def configs(ctx):
         for fmt in formats_for(kind):
             for opsym in ("+=", "-="):
                 for form in forms_for(fmt):
-                    cfg = (kind, fmt, opsym, form)
+                    st = (opsym, form)
+                    c2 = (kind, fmt, uniform(st, 2))
+                    c3 = (kind, fmt, uniform(st, 3))
                     iv = inits(fmt)
                     if ctx.quick:
                         pick = (ctx.seed + len(items)) % len(iv)
-                        items.append((cfg, 2, "stmt", iv))
-                        items.append((cfg, 3, "stmt", [iv[pick], iv[2]]))
-                        if form in ("const", "expr", "xreg"):
-                            items.append((cfg, 2, "whole", [iv[pick]]))
+                        items.append((c2, "stmt", iv, "uniform"))
+                        items.append((c3, "stmt", [iv[pick], iv[2]],
+                                      "uniform"))
+                        if form in ("const", "expr", "xreg", "zero", "lvar"):
+                            items.append((c2, "whole", [iv[pick]],
+                                          "uniform"))
                     else:
-                        items.append((cfg, 2, "stmt", iv))
-                        items.append((cfg, 3, "stmt", iv))
-                        items.append((cfg, 2, "whole", iv))
+                        items.append((c2, "stmt", iv, "uniform"))
+                        items.append((c3, "stmt", iv, "uniform"))
+                        items.append((c2, "whole", iv, "uniform"))
                         if form in ("const", "r", "expr", "xreg"):
-                            items.append((cfg, 3, "whole", [iv[0], iv[2]]))
+                            items.append((c3, "whole", [iv[0], iv[2]],
+                                          "uniform"))
+    # mixed statements: quick rotates the memory kind over the programs,
+    # thorough takes every kind (every other one for three instances and
+    # for two statements per program)
+    n = 0
+    for fmt in FORMATS:
+        kinds = [k for k in KINDS if fmt in formats_for(k)]
+        iv = inits(fmt)
+        for family, progs in mixed_programs(ctx, fmt):
+            n += 1
+            if ctx.quick:
+                kind = kinds[(n + ctx.seed) % len(kinds)]
+                pick = (ctx.seed + n) % len(iv)
+                items.append(((kind, fmt, progs), "stmt",
+                              uniq([iv[pick], iv[(pick + 2) % len(iv)]]),
+                              family))
+                if n % 7 == 0 and len(progs) == 2:
+                    items.append(((kind, fmt, progs), "whole", [iv[pick]],
+                                  family))
+            else:
+                for ki, kind in enumerate(kinds):
+                    big = len(progs) == 3 or family == "two statements"
+                    if big and (n + ki + ctx.seed) % 2:
+                        continue        # every other memory kind
+                    items.append(((kind, fmt, progs), "stmt",
+                                  [iv[(n + ki) % 5], iv[(n + ki + 2) % 5]]
+                                  if big else iv, family))
+                    if (n + ki) % 5 == 0 and len(progs) == 2:
+                        items.append(((kind, fmt, progs), "whole",
+                                      [iv[(n + ki) % len(iv)]], family))
     return items
 
 
 def run(ctx):
     items = configs(ctx)
-    res = core.pmap(ctx, run_config, items, chunk=4)
+    res = core.pmap(ctx, run_config, items, chunk=16)
     res.cov["configurations"] = len(items)
     res.cov["alphabet"] = dict(kinds=KINDS, formats=FORMATS, forms=FORMS,
-                               instances=[2, 3], modes=["stmt", "whole"])
-    res.sample(dict(kind="array", fmt="q", op="-=", form="expr", n=3,
-                    mode="stmt"))
+                               zero_forms=list(ZERO_FORMS),
+                               instances=[2, 3], modes=["stmt", "whole"],
+                               families=["uniform", "zero+any",
+                                         "two different", "three, one zero",
+                                         "three, two zero", "two statements"])
+    res.sample(dict(kind="array", fmt="q", n=2, mode="stmt", family="zero+any",
+                    progs=[[["+=", "zero", 0]], [["-=", "expr", 1]]]))
     res.assumptions += [
         "one XADD instruction is one atomic step (axiom of the interpreter, "
         "as of the hardware); memory orderings weaker than sequential "
@@ -548,10 +729,18 @@ def run(ctx):
         "hash-map variables are not Memory objects and are outside the "
         "statement's mechanism",
         "per-CPU variables: instances on different CPUs own private copies "
-        "(each must end at initial + own amount); instances on the same CPU "
+        "(each must end at initial + own amounts); instances on the same CPU "
         "share one copy",
         "a fixed-point amount added to an integer variable is converted by a "
-        "division first (C02) and is not enumerated",
+        "division first (C02) and is not enumerated (the fixed-point forms, "
+        "also 0.0, go with format x only)",
+        "an amount of zero is an amount: `v += 0`, `v -= 0.0`, `v += reg` "
+        "with reg == 0 are in-place additions like any other and must not "
+        "disturb a concurrent update; the sum of all amounts includes them",
+        "instances of one configuration may run different statements (and "
+        "two statements in a row) on the same variable; amount operands "
+        "(registers, the local amount variable) are private to an instance "
+        "and are planted before the statement(s) by raw instructions",
     ]
     return res
 
@@ -559,13 +748,17 @@ def run(ctx):
 def replay(ctx, rep):
     res = core.Result()
     c = rep["case"]
-    cfg = (c["kind"], c["fmt"], c["op"], c["form"])
-    insts, fake = build(cfg, c["n"])
+    if "progs" in c:
+        progs = tuple(tuple(tuple(st) for st in p) for p in c["progs"])
+    else:                      # replays written before the mixed families
+        progs = uniform((c["op"], c["form"]), c["n"])
+    cfg = (c["kind"], c["fmt"], progs)
+    insts, fake = build(cfg)
     world = World(insts, fake, c["mode"], c["init"])
     world.prologue()
     for k, inst in enumerate(insts):
-        print(f"--- instance {k}: statement = pcs [{inst.start}, {inst.end}) "
-              f"amount {inst.delta}")
+        print(f"--- instance {k}: {inst.stmts} = pcs [{inst.start}, "
+              f"{inst.end}) amount {inst.delta}")
         print(bpfvm.disasm(inst.insns))
     for i in c["schedule"]:
         vm = world.vms[i]
